@@ -810,3 +810,33 @@ Proof.
   - now apply matte_unmatte_opaque.
   - apply IH; auto.
 Qed.
+
+(* ================================================================== several saves of one object *)
+Lemma session_app c hd s pre post :
+  session c hd s (pre ++ post) = session c hd s pre ++ session c hd (state_after c hd s pre) post.
+Proof.
+  revert s; induction pre as [|st pre IH]; intro s; [reflexivity|].
+  destruct st; cbn [app session state_after fold_left]; rewrite IH; reflexivity.
+Qed.
+
+Lemma state_after_flag c hd s steps :
+  fst (state_after c hd s steps) = fst s || existsb is_struct steps.
+Proof.
+  revert s; induction steps as [|st steps IH]; intro s; cbn [state_after fold_left existsb].
+  - now rewrite orb_false_r.
+  - fold (state_after c hd (step_state c hd s st) steps). rewrite IH.
+    destruct st; cbn [step_state is_struct fst].
+    + now rewrite orb_true_r.
+    + reflexivity.
+    + destruct (save c hd (fst s) (snd s) rd transp tindex); reflexivity.
+Qed.
+
+(* the save() that follows any history is the save of a dirty document as soon as the history
+   contains one structural edit - however many saves and attribute edits lie in between *)
+Lemma session_save_after c hd s pre rd tr ti :
+  session c hd s (pre ++ [SSave rd tr ti]) =
+  session c hd s pre ++
+  [save c hd (fst s || existsb is_struct pre) (snd (state_after c hd s pre)) rd tr ti].
+Proof.
+  rewrite session_app. cbn [session]. now rewrite state_after_flag.
+Qed.
